@@ -75,6 +75,7 @@ func main() {
 	only := flag.String("formats", "", "comma separated subset (default: all)")
 	replay := flag.String("replay", "", "replay file: {\"case\": {\"format\":..,\"bytes_b64\":..}}")
 	list := flag.Bool("list", false, "print the implemented formats as JSON")
+	dumpdir := flag.String("dumpdir", "", "also write every generated file at its production path: <dumpdir>/<format>-<index>/<path> (one scan root per case), plus <dumpdir>/index.jsonl")
 	flag.Parse()
 
 	if *list {
@@ -116,6 +117,11 @@ func main() {
 		for i := 0; i < *mal && nwf > 0; i++ {
 			cases = append(cases, malf(r, cases[r.Intn(nwf)]))
 		}
+		if *dumpdir != "" {
+			if err := dumpCases(*dumpdir, f, cases); err != nil {
+				panic(err)
+			}
+		}
 		var items []string
 		sf, err := os.Create(filepath.Join(*outdir, "C03_"+f.Name+".jsonl"))
 		if err != nil {
@@ -138,6 +144,40 @@ func main() {
 		}
 		fmt.Printf("format=%s cases=%d\n", f.Name, len(cases))
 	}
+}
+
+// dumpCases writes each case's file under a production-like relative path so that other harnesses can scan the
+// directory tree: <dir>/<format>-<index>/<production path>. index.jsonl lists root, path, stream, expected packages.
+func dumpCases(dir string, f *Format, cases []*Case) error {
+	idx, err := os.OpenFile(filepath.Join(dir, "index.jsonl"), os.O_CREATE|os.O_APPEND|os.O_WRONLY, 0o644)
+	if err != nil {
+		if err2 := os.MkdirAll(dir, 0o755); err2 != nil {
+			return err2
+		}
+		if idx, err = os.OpenFile(filepath.Join(dir, "index.jsonl"), os.O_CREATE|os.O_APPEND|os.O_WRONLY, 0o644); err != nil {
+			return err
+		}
+	}
+	defer idx.Close()
+	enc := json.NewEncoder(idx)
+	for i, c := range cases {
+		path := c.Path
+		if path == "" {
+			path = f.Path
+		}
+		root := fmt.Sprintf("%s-%04d", f.Name, i)
+		full := filepath.Join(dir, root, filepath.FromSlash(path))
+		if err := os.MkdirAll(filepath.Dir(full), 0o755); err != nil {
+			return err
+		}
+		if err := os.WriteFile(full, c.data, 0o644); err != nil {
+			return err
+		}
+		if err := enc.Encode(map[string]any{"root": root, "path": path, "format": f.Name, "stream": c.Stream, "n_records": c.NRecords, "expected": c.Expected, "tags": c.Tags}); err != nil {
+			return err
+		}
+	}
+	return nil
 }
 
 func coqHeader(f *Format) string {
